@@ -154,6 +154,7 @@ def make_trace(tid, rng, nops=30, **opt):
     tail = rng.choice([0, 0, 512, cs // 1024 * 512, cs - 512])
     size_b = n * cs - tail
     # header fields that do not influence the mapping (geometry, "in use" marker, flags, extension offset, the v1 spare word)
+    fid = rng.randrange(0, 0x90)   # identity of this image
     dontcare = {"heads": rng.choice([16, 255, 0]), "cyl": rng.choice([1024, 0, 0xFFFF]), "in_use": rng.choice([0, 0x746F6E59, 1]),
                 "flags": rng.choice([0, 1, 2, 0x80000000]), "ext_off": rng.choice([0, 0, 7]), "v1_unused": rng.choice([0, 0xFFFFFFFF, 1])}
     if ver == 2:
@@ -163,7 +164,7 @@ def make_trace(tid, rng, nops=30, **opt):
         rng.shuffle(pos)
         bat = [0 if rng.random() < 0.35 else pos.pop() for _ in range(n)]
         img = {"kind": "hds", "ver": 2, "n": n, "cb": 1, "bat": {i: bat[i] for i in range(n)}, "size": n, "parent": parent}
-        vf, info = enc_hds.build(img, cluster_size=cs, P=hdr_clusters + npos, size_bytes=size_b, hdr_kw=dontcare)
+        vf, info = enc_hds.build(img, cluster_size=cs, P=hdr_clusters + npos, size_bytes=size_b, hdr_kw=dontcare, file_id=fid)
         timg = {"kind": "hds", "ver": 2, "n": n, "cb": 1, "bat": bat, "size": n, "parent": parent}
         cell = cs
     else:
@@ -178,11 +179,11 @@ def make_trace(tid, rng, nops=30, **opt):
         rng.shuffle(slots)
         bat = [0 if rng.random() < 0.35 else slots.pop() for _ in range(n)]
         img = {"kind": "hds", "ver": 1, "n": n, "cb": spc, "bat": {i: bat[i] for i in range(n)}, "size": n * spc, "parent": parent}
-        vf, info = enc_hds.build(img, cluster_size=cs, P=(cur // spc) + 2, size_bytes=size_b, hdr_kw=dontcare)
+        vf, info = enc_hds.build(img, cluster_size=cs, P=(cur // spc) + 2, size_bytes=size_b, hdr_kw=dontcare, file_id=fid)
         timg = {"kind": "hds", "ver": 1, "n": n, "cb": spc, "bat": bat, "size": n * spc, "parent": parent}
         cell = 512
     popen = (lambda: disk.ParentStream(size_b)) if parent else None
-    b = disk.Built(open=lambda: _open(vf, popen), cell=cell, size=size_b, bases={0: 0}, has_parent=parent)
+    b = disk.Built(open=lambda: _open(vf, popen), cell=cell, size=size_b, bases={0: 0}, has_parent=parent, fids={0: fid})
     s = b.open()
     fresh = b.open()
     rec = record.Recorder(s, size_b, probe=fresh.readoffset, align=opt.get("align"))
